@@ -63,52 +63,65 @@ def writeLine (c : Case) : Bytes :=
   | .text t => if fastPath (enc t) then printfLine c.path (enc t) else teeLine c.path
   | .bytes _ => b64TeeLine c.path
 
-/-- everything tbot is meant to type during the write (what the remote's answer is computed from) -/
-def writeTyped (cd : Codec) (c : Case) : Bytes :=
-  let status := echoStatusLine ++ [Tty.CR]
+/-- what tbot is meant to type between the command line and `echo $?` -/
+def writeBody (cd : Codec) (c : Case) : Bytes :=
   match c.data with
-  | .text t =>
-    let e := enc t
-    if fastPath e then printfLine c.path e ++ [Tty.CR] ++ status
-    else teeLine c.path ++ [Tty.CR] ++ e ++ (if !(e.isEmpty || endsInNl e) then [EOT] else []) ++ [EOT] ++ status
-  | .bytes d =>
-    b64TeeLine c.path ++ [Tty.CR] ++ (chunksOf Params.b64LineLen (cd.enc d)).flatMap (· ++ [Tty.CR]) ++ [EOT] ++ status
+  | .text t => if fastPath (enc t) then [] else enc t ++ Remote.fin (enc t)
+  | .bytes d => (chunksOf Params.b64LineLen (cd.enc d)).flatMap (· ++ [Tty.CR]) ++ [EOT]
+
+/-- everything tbot is meant to type during the write -/
+def writeTyped (cd : Codec) (c : Case) : Bytes :=
+  writeLine c ++ [Tty.CR] ++ writeBody cd c ++ (echoStatusLine ++ [Tty.CR])
+
+/-- the remote's answer to the command line and the body: their echo (the EOF character is not
+    echoed), then the prompt (`tee`'s output goes to /dev/null, `printf`'s to the file) -/
+def writeAns1 (cd : Codec) (c : Case) : Bytes :=
+  Tty.echo false (writeLine c ++ [Tty.CR]) ++ Remote.echoTyped (writeBody cd c) ++ prompt c
 
 def valOfRes {α} (f : α → Val) : Except ShExc α → Val
   | .ok a => f a
   | .error e => .err (excTag e)
 
-/-- run a case on the model; the remote's answers are cut as the recorded piece sizes say -/
-def run (cd : Codec) (c : Case) (pw pr : List Nat) : Obs :=
+def piecesOf (s : St) : List Nat := s.reads.filterMap fun r => r.data.map List.length
+
+/-- the read half of a case, from the file `file` the remote holds -/
+def runRead (cd : Codec) (c : Case) (file : Bytes) (pr : List Nat) : Val × St :=
   let ps1 := prompt c
-  -- the write
-  let (a1, a2, okW) := match Remote.session cd ps1 (writeTyped cd c) with
-    | some o => (o.ans1, o.ans2, true)
-    | none => ([], [], false)
-  let (p1, p2) := splitSizes pw a1.length
-  let s0 := initSt c
-  let (rw, sw) := match c.data with
-    | .text t => writeText ps1 c.path t (cutBy p1 a1) (cutBy p2 a2) s0
-    | .bytes d => writeBytes cd ps1 c.path d (cutBy p1 a1) (cutBy p2 a2) s0
-  let txW := written sw
-  let piecesOf (s : St) := s.reads.filterMap fun r => r.data.map List.length
-  let ret := valOfRes Val.n rw
-  match rw, okW, Remote.session cd ps1 txW with
-  | .ok _, true, some o =>
-    -- the read, from the file the remote model holds now
-    let isText := match c.data with | .text _ => true | .bytes _ => false
-    let line := if isText then catLine c.path else b64Line c.path
-    let out := if isText then o.file else Remote.b64Out cd o.file
-    let b1 := respCmd false ps1 line out
-    let b2 := respStatus false ps1 0
+  let b2 := respStatus false ps1 0
+  match c.data with
+  | .text _ =>
+    let b1 := respCmd false ps1 (catLine c.path) file
     let (q1, q2) := splitSizes pr b1.length
-    let (rr, sr) := if isText then
-        (match readText c.path (cutBy q1 b1) (cutBy q2 b2) s0 with | (r, s) => (valOfRes Val.text r, s))
-      else
-        (match readBytes cd c.path (cutBy q1 b1) (cutBy q2 b2) s0 with | (r, s) => (valOfRes Val.bytes r, s))
+    match readText c.path (cutBy q1 b1) (cutBy q2 b2) (initSt c) with
+    | (r, s) => (valOfRes Val.text r, s)
+  | .bytes _ =>
+    let b1 := respCmd false ps1 (b64Line c.path) (Remote.b64Out cd file)
+    let (q1, q2) := splitSizes pr b1.length
+    match readBytes cd c.path (cutBy q1 b1) (cutBy q2 b2) (initSt c) with
+    | (r, s) => (valOfRes Val.bytes r, s)
+
+/-- the write half of a case -/
+def runWrite (cd : Codec) (c : Case) (pw : List Nat) : Except ShExc Nat × St :=
+  let ps1 := prompt c
+  let a1 := writeAns1 cd c
+  let a2 := respStatus false ps1 0
+  let (p1, p2) := splitSizes pw a1.length
+  match c.data with
+  | .text t => writeText ps1 c.path t (cutBy p1 a1) (cutBy p2 a2) (initSt c)
+  | .bytes d => writeBytes cd ps1 c.path d (cutBy p1 a1) (cutBy p2 a2) (initSt c)
+
+/-- run a case on the model; the remote's answers are cut as the recorded piece sizes say.  The
+    file is what the remote model (`Remote.session`) makes of the bytes the write really typed. -/
+def run (cd : Codec) (c : Case) (pw pr : List Nat) : Obs :=
+  let (rw, sw) := runWrite cd c pw
+  let txW := written sw
+  let ret := valOfRes Val.n rw
+  match rw, Remote.session cd (prompt c) txW with
+  | .ok _, some o =>
+    let (rr, sr) := runRead cd c o.file pr
     { ret := ret, file := some o.file, back := rr, txW := txW, txR := written sr,
       piecesW := piecesOf sw, piecesR := piecesOf sr }
-  | _, _, _ =>
+  | _, _ =>
     { ret := ret, file := none, back := .skip, txW := txW, txR := [], piecesW := piecesOf sw, piecesR := [] }
 
 /-! ### the specification -/
